@@ -127,6 +127,7 @@ func multisets(vals []uint64, size int, f func(ms []uint64)) {
 
 func runC18(c *rt.Ctx) {
 	exploreMetricsRaces(c)
+	exploreScrapeRaces(c)
 	bounds := metrics.VerifBucketBounds()
 	// ---- (a) bucket index and bit count on every boundary class -------------------------------
 	if c.Mine(0) {
